@@ -9,6 +9,7 @@ import (
 	"reflect"
 	"strconv"
 	"strings"
+	"time"
 
 	"github.com/filecoin-project/go-jsonrpc"
 
@@ -55,6 +56,7 @@ func validAns(a string, extra ...string) bool {
 	return ok
 }
 func validSubmitAns(a string) bool {
+	// (`wait` is not an answer a line can name: only xsubmit scripts it, with the release it needs)
 	if a == "ok" || a == "dummy" {
 		return true
 	}
@@ -154,8 +156,10 @@ func refFilter(max uint64, blobs [][]byte) (sent [][]byte, refused bool) {
 // ---------------------------------------------------------------- executor
 
 type runner struct {
-	c  *hx.Ctx
-	fx *fixture
+	c       *hx.Ctx
+	fx      *fixture
+	grace   time.Duration // how long the proxied DA layer is given to learn of a cancellation
+	raceOff int64         // how much of the race detector's log has been read
 }
 
 func (r *runner) ctxFor(cancelled bool) (context.Context, context.CancelFunc) {
@@ -168,6 +172,131 @@ func (r *runner) ctxFor(cancelled bool) (context.Context, context.CancelFunc) {
 
 func showSubmit(res coreda.ResultSubmit) string {
 	return fmt.Sprintf("%s/%d/%d/%d", statusName(res.Code), res.SubmittedCount, len(res.IDs), res.Height)
+}
+
+// subCase is one caller's submission as the monitors see it: what it asked for, what the helper answered
+// in-process and through the proxy, and what its request(s) carried when they reached the backing DA.
+type subCase struct {
+	who       string // "" (submit) or "A: " / "B: " (csubmit)
+	blobs     [][]byte
+	max, h    uint64
+	ans       string
+	cancelled bool
+	dres      coreda.ResultSubmit
+	pres      coreda.ResultSubmit
+	dlast     error
+	plast     error
+	calls     [][][]byte
+}
+
+func (sc *subCase) script() script { return script{Sub: sc.ans, Max: sc.max, H: sc.h} }
+
+func (sc *subCase) got() [][]byte {
+	if len(sc.calls) > 0 {
+		return sc.calls[0]
+	}
+	return nil
+}
+
+func sizesOf(bs [][]byte) string {
+	szs := make([]int, len(bs))
+	for i := range bs {
+		szs[i] = len(bs[i])
+	}
+	return showNats(szs)
+}
+
+func (sc *subCase) line() string {
+	sent := "none"
+	if len(sc.calls) > 0 {
+		sent = sizesOf(sc.calls[0])
+	}
+	return fmt.Sprintf("d=%s p=%s sent=%s dis=%s pis=%s dty=%s pty=%s wire=%s", showSubmit(sc.dres), showSubmit(sc.pres), sent,
+		isList(sc.dlast), isList(sc.plast), typeName(sc.dlast), typeName(sc.plast), wireCode(sc.plast))
+}
+
+// prefixWhy classifies how what the server received differs from the longest fitting prefix.
+func prefixWhy(ncalls int, got, expSent, blobs [][]byte) string {
+	switch {
+	case ncalls == 0:
+		return "nothing-sent"
+	case len(got) < len(expSent) && eqBytesList(got, blobs[:len(got)]):
+		return "shorter-prefix"
+	case len(got) > len(expSent) && len(got) <= len(blobs) && eqBytesList(got, blobs[:len(got)]):
+		return "exceeds-limit"
+	case len(got) <= len(blobs) && !eqBytesList(got, blobs[:len(got)]):
+		return "not-a-prefix"
+	}
+	return "other"
+}
+
+// judge: the monitors of one submission (size rule, SubmittedCount, direct ≡ proxied).
+func (r *runner) judge(sc *subCase) {
+	c := r.c
+	max, blobs, ans, cancelled, pres, dres, calls, got := sc.max, sc.blobs, sc.ans, sc.cancelled, sc.pres, sc.dres, sc.calls, sc.got()
+	cause := causeOf(ans, cancelled)
+	// ---- monitor: the size rule
+	if len(calls) > 1 {
+		c.Report("C16/size-filter/more-than-one-call", fmt.Sprintf("%sone SubmitWithOptions made %d calls to the server", sc.who, len(calls)))
+	}
+	expSent, refused := refFilter(max, blobs)
+	switch {
+	case refused:
+		c.Hit("filter/refused")
+		if len(calls) > 0 {
+			c.Report("C16/size-filter/oversize-but-sent", fmt.Sprintf("%sa blob larger than the limit %d stops the prefix, yet %d blobs were sent to the server", sc.who, max, len(got)))
+		}
+		if pres.Code != coreda.StatusTooBig {
+			c.Report("C16/size-filter/oversize-not-refused", fmt.Sprintf("%sa blob larger than the limit %d stops the prefix; status is %s, not toobig", sc.who, max, statusName(pres.Code)))
+		}
+	case len(blobs) == 0:
+		c.Hit("filter/empty-input")
+		if len(calls) > 0 || pres.Code != coreda.StatusSuccess || pres.SubmittedCount != 0 {
+			c.Report("C16/size-filter/empty-input", fmt.Sprintf("%sempty input: calls=%d status=%s count=%d", sc.who, len(calls), statusName(pres.Code), pres.SubmittedCount))
+		}
+	case !cancelled:
+		if len(expSent) < len(blobs) {
+			c.Hit("filter/truncated")
+		} else {
+			c.Hit("filter/all-fit")
+		}
+		if !eqBytesList(got, expSent) {
+			why := prefixWhy(len(calls), got, expSent, blobs)
+			c.Report("C16/size-filter/not-longest-prefix/"+why, fmt.Sprintf("%slimit %d, %d blobs: the longest fitting prefix has %d blobs, the server received %d", sc.who, max, len(blobs), len(expSent), len(got)))
+		}
+	}
+	// ---- monitor: SubmittedCount
+	if pres.SubmittedCount != uint64(len(pres.IDs)) && pres.Code != coreda.StatusContextCanceled {
+		c.Report("C16/submitted-count/not-number-of-ids", fmt.Sprintf("%sSubmittedCount=%d but %d ids", sc.who, pres.SubmittedCount, len(pres.IDs)))
+	}
+	if pres.SubmittedCount > uint64(len(got)) {
+		c.Report("C16/submitted-count/unsent-blob-marked-submitted", fmt.Sprintf("%sSubmittedCount=%d but only %d blobs reached the DA layer", sc.who, pres.SubmittedCount, len(got)))
+	}
+	if pres.Code == coreda.StatusSuccess && pres.SubmittedCount > uint64(len(expSent)) {
+		c.Report("C16/submitted-count/exceeds-fitting-prefix", fmt.Sprintf("%sSubmittedCount=%d, fitting prefix %d", sc.who, pres.SubmittedCount, len(expSent)))
+	}
+	// ---- monitor: direct ≡ proxied. The reference is the direct call on what the size rule lets through
+	// (the whole input when everything fits, and always for a backing DA that enforces the same limit itself).
+	ref := dres
+	if ans != "dummy" && !refused && len(expSent) < len(blobs) {
+		r.fx.back.reset(sc.script())
+		ctx, cancel := r.ctxFor(cancelled)
+		ref = types.SubmitWithHelpers(ctx, r.fx.back, r.fx.logger, expSent, 0, nil)
+		cancel()
+	}
+	if refused && (ans != "dummy" || cancelled) {
+		return // the client refuses locally before anything else; there is no in-process counterpart of that call
+	}
+	if len(blobs) == 0 && (cancelled || (ans != "ok" && ans != "dummy")) {
+		return // nothing to submit: the client answers without a call, so a scripted failure / the cancelled context is never consulted
+	}
+	if ref.Code != pres.Code {
+		c.Report("C16/classification-differs/submit/"+cause, fmt.Sprintf("%ssubmit: in-process %s, through the proxy %s (backing DA answers %q)", sc.who, statusName(ref.Code), statusName(pres.Code), ans))
+		return
+	}
+	if ref.SubmittedCount != pres.SubmittedCount || !eqBytesList(ref.IDs, pres.IDs) || ref.Height != pres.Height {
+		c.Report("C16/result-differs/submit", fmt.Sprintf("%ssubmit: in-process count=%d ids=%d height=%d, proxied count=%d ids=%d height=%d", sc.who, ref.SubmittedCount, len(ref.IDs), ref.Height, pres.SubmittedCount, len(pres.IDs), pres.Height))
+	}
 }
 
 func (r *runner) submit(o hx.Op) {
@@ -188,109 +317,313 @@ func (r *runner) submit(o hx.Op) {
 	for i, s := range sizes {
 		blobs[i] = bytes.Repeat([]byte{byte(i%251 + 1)}, int(s))
 	}
-	sc := script{Sub: ans, Max: max, H: h}
-	cause := causeOf(ans, cancelled)
+	sc := &subCase{blobs: blobs, max: max, h: h, ans: ans, cancelled: cancelled}
 	c.Hit("submit/" + strings.SplitN(ans, ":", 2)[0])
 
 	// direct: the node's helper straight on the backing DA
-	r.fx.back.reset(sc)
+	r.fx.back.reset(sc.script())
 	drec := &recDA{DA: r.fx.back}
 	ctx, cancel := r.ctxFor(cancelled)
-	dres := types.SubmitWithHelpers(ctx, drec, r.fx.logger, blobs, 0, nil)
+	sc.dres = types.SubmitWithHelpers(ctx, drec, r.fx.logger, blobs, 0, nil)
 	cancel()
+	sc.dlast = drec.last
 
 	// proxied: helper -> client wrapper -> wire -> server -> the same backing DA
-	r.fx.back.reset(sc)
+	r.fx.back.reset(sc.script())
 	r.fx.cli.DA.MaxBlobSize = max
 	prec := &recDA{DA: &r.fx.cli.DA}
 	ctx, cancel = r.ctxFor(cancelled)
-	pres := types.SubmitWithHelpers(ctx, prec, r.fx.logger, blobs, 0, nil)
+	sc.pres = types.SubmitWithHelpers(ctx, prec, r.fx.logger, blobs, 0, nil)
 	cancel()
-	calls := r.fx.back.submits
-	var got [][]byte
-	sent := "none"
-	if len(calls) > 0 {
-		got = calls[0]
-		szs := make([]int, len(got))
-		for i := range got {
-			szs[i] = len(got[i])
-		}
-		sent = showNats(szs)
-	}
-	c.Emit("d=%s p=%s sent=%s dis=%s pis=%s dty=%s pty=%s wire=%s", showSubmit(dres), showSubmit(pres), sent,
-		isList(drec.last), isList(prec.last), typeName(drec.last), typeName(prec.last), wireCode(prec.last))
+	sc.plast = prec.last
+	sc.calls = r.fx.back.callsOf("")
+	c.Emit("%s", sc.line())
+	r.judge(sc)
+}
 
-	// ---- monitor: the size rule
-	if len(calls) > 1 {
-		c.Report("C16/size-filter/more-than-one-call", fmt.Sprintf("one SubmitWithOptions made %d calls to the server", len(calls)))
+// ---------------------------------------------------------------- csubmit: two callers, ONE client
+//
+// The node has one DA client; the header submission loop and the data submission loop call SubmitWithOptions on
+// it from two goroutines.  `csubmit` submits two recognisable blob lists (A: bytes 0x01.., B: bytes 0x81..) through the
+// same client, tagged by their options, so that the backing DA records what each REQUEST carried:
+//
+//	gate=stub  caller A is parked between the client wrapper (size filter, batch packed) and the generated
+//	           JSON-RPC stub (request encoded) while B runs from start to end, then A goes on
+//	gate=da    caller A is parked inside the backing DA (its request has been received and recorded) while B runs
+//	gate=free  both start together, nothing orders them (several rounds; the race detector watches)
+//
+// Each caller is then judged exactly like a lone `submit` (reference: the in-process call), plus: a request must
+// not carry a blob of the other caller.
+const freeRounds = 6
+
+func tagBlobs(sizes []uint64, base byte) [][]byte {
+	blobs := make([][]byte, len(sizes))
+	for i, s := range sizes {
+		blobs[i] = bytes.Repeat([]byte{base + byte(i%100)}, int(s))
 	}
-	expSent, refused := refFilter(max, blobs)
-	switch {
-	case refused:
-		c.Hit("filter/refused")
-		if len(calls) > 0 {
-			c.Report("C16/size-filter/oversize-but-sent", fmt.Sprintf("a blob larger than the limit %d stops the prefix, yet %d blobs were sent to the server", max, len(got)))
-		}
-		if pres.Code != coreda.StatusTooBig {
-			c.Report("C16/size-filter/oversize-not-refused", fmt.Sprintf("a blob larger than the limit %d stops the prefix; status is %s, not toobig", max, statusName(pres.Code)))
-		}
-	case len(blobs) == 0:
-		c.Hit("filter/empty-input")
-		if len(calls) > 0 || pres.Code != coreda.StatusSuccess || pres.SubmittedCount != 0 {
-			c.Report("C16/size-filter/empty-input", fmt.Sprintf("empty input: calls=%d status=%s count=%d", len(calls), statusName(pres.Code), pres.SubmittedCount))
-		}
-	case !cancelled:
-		if len(expSent) < len(blobs) {
-			c.Hit("filter/truncated")
-		} else {
-			c.Hit("filter/all-fit")
-		}
-		if !eqBytesList(got, expSent) {
-			why := "other"
-			switch {
-			case len(calls) == 0:
-				why = "nothing-sent"
-			case len(got) < len(expSent) && eqBytesList(got, blobs[:len(got)]):
-				why = "shorter-prefix"
-			case len(got) > len(expSent) && len(got) <= len(blobs) && eqBytesList(got, blobs[:len(got)]):
-				why = "exceeds-limit"
-			case len(got) <= len(blobs) && !eqBytesList(got, blobs[:len(got)]):
-				why = "not-a-prefix"
-			}
-			c.Report("C16/size-filter/not-longest-prefix/"+why, fmt.Sprintf("limit %d, %d blobs: the longest fitting prefix has %d blobs, the server received %d", max, len(blobs), len(expSent), len(got)))
-		}
-	}
-	// ---- monitor: SubmittedCount
-	if pres.SubmittedCount != uint64(len(pres.IDs)) && pres.Code != coreda.StatusContextCanceled {
-		c.Report("C16/submitted-count/not-number-of-ids", fmt.Sprintf("SubmittedCount=%d but %d ids", pres.SubmittedCount, len(pres.IDs)))
-	}
-	if pres.SubmittedCount > uint64(len(got)) {
-		c.Report("C16/submitted-count/unsent-blob-marked-submitted", fmt.Sprintf("SubmittedCount=%d but only %d blobs reached the DA layer", pres.SubmittedCount, len(got)))
-	}
-	if pres.Code == coreda.StatusSuccess && pres.SubmittedCount > uint64(len(expSent)) {
-		c.Report("C16/submitted-count/exceeds-fitting-prefix", fmt.Sprintf("SubmittedCount=%d, fitting prefix %d", pres.SubmittedCount, len(expSent)))
-	}
-	// ---- monitor: direct ≡ proxied. The reference is the direct call on what the size rule lets through
-	// (the whole input when everything fits, and always for a backing DA that enforces the same limit itself).
-	ref := dres
-	if ans != "dummy" && !refused && len(expSent) < len(blobs) {
-		r.fx.back.reset(sc)
-		ctx, cancel = r.ctxFor(cancelled)
-		ref = types.SubmitWithHelpers(ctx, r.fx.back, r.fx.logger, expSent, 0, nil)
-		cancel()
-	}
-	if refused && (ans != "dummy" || cancelled) {
-		return // the client refuses locally before anything else; there is no in-process counterpart of that call
-	}
-	if len(blobs) == 0 && (cancelled || (ans != "ok" && ans != "dummy")) {
-		return // nothing to submit: the client answers without a call, so a scripted failure / the cancelled context is never consulted
-	}
-	if ref.Code != pres.Code {
-		c.Report("C16/classification-differs/submit/"+cause, fmt.Sprintf("submit: in-process %s, through the proxy %s (backing DA answers %q)", statusName(ref.Code), statusName(pres.Code), ans))
+	return blobs
+}
+
+func validGate(g string) bool { return g == "stub" || g == "da" || g == "free" }
+
+func (r *runner) csubmit(o hx.Op) {
+	c := r.c
+	ans, gate := o.Str("ans"), o.Str("gate")
+	if !validSubmitAns(ans) || !validGate(gate) || !o.Has("a") || !o.Has("b") {
+		c.Emit("bad-op")
 		return
 	}
-	if ref.SubmittedCount != pres.SubmittedCount || !eqBytesList(ref.IDs, pres.IDs) || ref.Height != pres.Height {
-		c.Report("C16/result-differs/submit", fmt.Sprintf("submit: in-process count=%d ids=%d height=%d, proxied count=%d ids=%d height=%d", ref.SubmittedCount, len(ref.IDs), ref.Height, pres.SubmittedCount, len(pres.IDs), pres.Height))
+	max, _ := o.U64("max")
+	if max == 0 {
+		max = r.fx.defMax
+	}
+	h, _ := o.U64("h")
+	A := &subCase{who: "caller A: ", blobs: tagBlobs(natList(o.Str("a")), 0x01), max: max, h: h, ans: ans}
+	B := &subCase{who: "caller B: ", blobs: tagBlobs(natList(o.Str("b")), 0x81), max: max, h: h, ans: ans}
+	c.Hit("csubmit/" + gate)
+
+	// direct: one after the other on the backing DA (an in-process DA has no shared client state to begin with)
+	r.fx.back.reset(A.script())
+	for _, sc := range []*subCase{A, B} {
+		drec := &recDA{DA: r.fx.back}
+		sc.dres = types.SubmitWithHelpers(context.Background(), drec, r.fx.logger, sc.blobs, 0, nil)
+		sc.dlast = drec.last
+	}
+
+	r.fx.cli.DA.MaxBlobSize = max
+	rounds := 1
+	if gate == "free" {
+		rounds = freeRounds
+	}
+	for round := 0; round < rounds; round++ {
+		r.fx.back.reset(A.script())
+		entered, release := make(chan struct{}, 8), make(chan struct{})
+		restore := func() {}
+		switch gate {
+		case "stub":
+			orig := r.fx.cli.DA.Internal.SubmitWithOptions
+			r.fx.cli.DA.Internal.SubmitWithOptions = func(ctx context.Context, blobs []coreda.Blob, gp float64, ns []byte, opts []byte) ([]coreda.ID, error) {
+				if string(opts) == "A" {
+					entered <- struct{}{}
+					<-release
+				}
+				return orig(ctx, blobs, gp, ns, opts)
+			}
+			restore = func() { r.fx.cli.DA.Internal.SubmitWithOptions = orig }
+		case "da":
+			w := r.fx.back.arm("A")
+			entered, release = w.entered, w.release
+		}
+		call := func(sc *subCase, tag string) {
+			prec := &recDA{DA: &r.fx.cli.DA}
+			sc.pres = types.SubmitWithHelpers(context.Background(), prec, r.fx.logger, sc.blobs, 0, []byte(tag))
+			sc.plast = prec.last
+		}
+		doneA := make(chan struct{})
+		if gate == "free" {
+			start, doneB := make(chan struct{}), make(chan struct{})
+			go func() { defer close(doneA); <-start; call(A, "A") }()
+			go func() { defer close(doneB); <-start; call(B, "B") }()
+			close(start)
+			<-doneA
+			<-doneB
+		} else {
+			go func() { defer close(doneA); call(A, "A") }()
+			select {
+			case <-entered: // A is parked: its batch is packed (stub) / its request has arrived (da)
+				c.Hit("csubmit/overlapped")
+			case <-doneA: // A needed no call (refused, empty)
+			}
+			call(B, "B")
+			close(release)
+			<-doneA
+		}
+		restore()
+		A.calls, B.calls = r.fx.back.callsOf("A"), r.fx.back.callsOf("B")
+		if strays := r.fx.back.callsOf(""); len(strays) > 0 {
+			c.Report("C16/concurrent/request-lost-its-options", fmt.Sprintf("%d requests arrived without the options their caller passed", len(strays)))
+		}
+		for _, p := range [][2]*subCase{{A, B}, {B, A}} {
+			me, other := p[0], p[1]
+			for _, call := range me.calls {
+				for i, b := range call {
+					if len(b) == 0 || (i < len(me.blobs) && bytes.Equal(b, me.blobs[i])) {
+						continue
+					}
+					for j, ob := range other.blobs {
+						if bytes.Equal(b, ob) {
+							c.Report("C16/concurrent/submission-carried-other-calls-blobs", fmt.Sprintf("%sblob %d of its request (as received by the DA layer) is blob %d of the OTHER caller's list (gate=%s, %d+%d blobs, limit %d): two SubmitWithOptions calls on the same client overlap and one batch ends up in the other's request; the caller marks its own blobs as submitted", me.who, i, j, gate, len(A.blobs), len(B.blobs), max))
+							break
+						}
+					}
+				}
+			}
+			r.judge(me)
+		}
+		r.scanRaces()
+	}
+	c.Emit("a[%s] b[%s]", A.line(), B.line())
+}
+
+// ---------------------------------------------------------------- xsubmit: the caller gives up in the middle of a call
+//
+// The backing DA answers `wait`: it takes the batch and waits for its inclusion; it honours its context (a cancelled
+// submission is dropped, nothing is stored) and stores the batch when the op lets the DA "produce its block".
+// `cancel=mid` cancels the caller's context while the DA waits; `cancel=none` lets the call complete.  Compared,
+// direct vs proxied: what the caller was told, whether the DA layer learnt of the cancellation, what it holds afterwards.
+type midRes struct {
+	res      coreda.ResultSubmit
+	last     error
+	reached  bool
+	got      [][]byte
+	saw      bool
+	stored   [][]byte
+	didStore bool
+	hung     string
+}
+
+func (r *runner) midCall(da coreda.DA, blobs [][]byte, h uint64, mid bool) midRes {
+	var m midRes
+	r.fx.back.reset(script{Sub: "wait", H: h})
+	w := r.fx.back.arm("")
+	ctx, cancel := context.WithCancel(context.Background())
+	defer cancel()
+	rec := &recDA{DA: da}
+	done := make(chan struct{})
+	go func() {
+		defer close(done)
+		m.res = types.SubmitWithHelpers(ctx, rec, r.fx.logger, blobs, 0, nil)
+	}()
+	long := 20 * time.Second
+	select {
+	case <-w.entered:
+		m.reached = true
+	case <-done:
+	}
+	if m.reached {
+		if mid {
+			cancel() // the node shuts down / abandons the attempt
+			select {
+			case <-done:
+			case <-time.After(long):
+				m.hung = "the call did not return after its context was cancelled"
+			}
+			// the DA layer must learn of it (in-process: at once; proxied: the server cancels the request context)
+			select {
+			case <-w.finished:
+			case <-time.After(r.grace):
+				r.grace = 300 * time.Millisecond // already a finding; do not wait that long again in this run
+			}
+		}
+		close(w.release) // the DA layer produces its next block
+		select {
+		case <-w.finished:
+		case <-time.After(long):
+			m.hung = "the backing DA call did not end"
+		}
+		select {
+		case <-done:
+		case <-time.After(long):
+			m.hung = "the call did not return"
+		}
+	}
+	r.fx.back.mu.Lock()
+	m.saw, m.stored, m.didStore = w.saw, w.stored, w.didStore
+	r.fx.back.mu.Unlock()
+	if cs := r.fx.back.callsOf(""); len(cs) > 0 {
+		m.got = cs[0]
+	}
+	m.last = rec.last
+	return m
+}
+
+func b2i(b bool) int {
+	if b {
+		return 1
+	}
+	return 0
+}
+
+func (r *runner) xsubmit(o hx.Op) {
+	c := r.c
+	how := o.Str("cancel")
+	if (how != "mid" && how != "none") || !o.Has("sizes") {
+		c.Emit("bad-op")
+		return
+	}
+	mid := how == "mid"
+	max, _ := o.U64("max")
+	if max == 0 {
+		max = r.fx.defMax
+	}
+	h, _ := o.U64("h")
+	sizes := natList(o.Str("sizes"))
+	blobs := make([][]byte, len(sizes))
+	for i, s := range sizes {
+		blobs[i] = bytes.Repeat([]byte{byte(i%251 + 1)}, int(s))
+	}
+	c.Hit("xsubmit/" + how)
+	d := r.midCall(r.fx.back, blobs, h, mid)
+	r.fx.cli.DA.MaxBlobSize = max
+	p := r.midCall(&r.fx.cli.DA, blobs, h, mid)
+	sent := "none"
+	if p.reached {
+		sent = sizesOf(p.got)
+	}
+	c.Emit("d=%s p=%s sent=%s dsaw=%d psaw=%d dstored=%s pstored=%s dis=%s pis=%s dty=%s pty=%s", showSubmit(d.res), showSubmit(p.res), sent,
+		b2i(d.saw), b2i(p.saw), sizesOf(d.stored), sizesOf(p.stored), isList(d.last), isList(p.last), typeName(d.last), typeName(p.last))
+
+	// ---- monitors
+	cause := "no-error"
+	if mid {
+		cause = "cancelled-mid-call"
+	}
+	for _, m := range []midRes{d, p} {
+		if m.hung != "" {
+			c.Report("C16/cancel/call-did-not-return", m.hung)
+		}
+	}
+	expSent, refused := refFilter(max, blobs)
+	if refused || len(blobs) == 0 {
+		if p.reached {
+			c.Report("C16/size-filter/oversize-but-sent", fmt.Sprintf("limit %d: nothing may be sent (refused=%v, %d blobs), yet %d blobs reached the DA layer", max, refused, len(blobs), len(p.got)))
+		}
+		if refused && p.res.Code != coreda.StatusTooBig {
+			c.Report("C16/size-filter/oversize-not-refused", fmt.Sprintf("a blob larger than the limit %d stops the prefix; status is %s, not toobig", max, statusName(p.res.Code)))
+		}
+		return
+	}
+	if !p.reached || !eqBytesList(p.got, expSent) {
+		n := 0
+		if p.reached {
+			n = 1
+		}
+		c.Report("C16/size-filter/not-longest-prefix/"+prefixWhy(n, p.got, expSent, blobs), fmt.Sprintf("limit %d, %d blobs: the longest fitting prefix has %d blobs, the server received %d", max, len(blobs), len(expSent), len(p.got)))
+	}
+	ref := d
+	if len(expSent) < len(blobs) {
+		ref = r.midCall(r.fx.back, expSent, h, mid)
+	}
+	if ref.res.Code != p.res.Code {
+		c.Report("C16/classification-differs/submit/"+cause, fmt.Sprintf("submit, %s: the caller is told %s in-process and %s through the proxy", cause, statusName(ref.res.Code), statusName(p.res.Code)))
+	} else if ref.res.SubmittedCount != p.res.SubmittedCount || !eqBytesList(ref.res.IDs, p.res.IDs) || ref.res.Height != p.res.Height {
+		c.Report("C16/result-differs/submit", fmt.Sprintf("submit, %s: in-process count=%d ids=%d height=%d, proxied count=%d ids=%d height=%d", cause, ref.res.SubmittedCount, len(ref.res.IDs), ref.res.Height, p.res.SubmittedCount, len(p.res.IDs), p.res.Height))
+	}
+	if p.res.SubmittedCount > uint64(len(p.got)) {
+		c.Report("C16/submitted-count/unsent-blob-marked-submitted", fmt.Sprintf("SubmittedCount=%d but only %d blobs reached the DA layer", p.res.SubmittedCount, len(p.got)))
+	}
+	switch {
+	case ref.saw && !p.saw:
+		c.Report("C16/cancel/backing-da-not-cancelled", fmt.Sprintf("the caller cancelled its context while the DA layer was working on the batch: in-process the DA layer sees the cancellation and drops the batch; behind the proxy the caller is told %s but the DA layer's context was not cancelled", statusName(p.res.Code)))
+	case !ref.saw && p.saw:
+		c.Report("C16/cancel/backing-da-cancelled-without-cause", "behind the proxy the DA layer's context was cancelled although the caller never cancelled")
+	}
+	if !eqBytesList(ref.stored, p.stored) || ref.didStore != p.didStore {
+		sig := "C16/result-differs/contents-after-submit"
+		if mid {
+			sig = "C16/result-differs/contents-after-cancel"
+		}
+		c.Report(sig, fmt.Sprintf("%s: afterwards the DA layer holds %d blobs (sizes %s) when called in-process and %d blobs (sizes %s) behind the proxy; the caller was told %s / %s", cause, len(ref.stored), sizesOf(ref.stored), len(p.stored), sizesOf(p.stored), statusName(ref.res.Code), statusName(p.res.Code)))
 	}
 }
 
@@ -390,7 +723,9 @@ func run(c *hx.Ctx) {
 		}
 	}
 	defer fx.close()
-	r := &runner{c: c, fx: fx}
+	r := &runner{c: c, fx: fx, grace: 3 * time.Second}
+	r.raceInit()
+	defer r.scanRaces()
 	for {
 		o, ok := c.Next()
 		if !ok {
@@ -410,6 +745,10 @@ func run(c *hx.Ctx) {
 				r.submit(o)
 			case "retrieve":
 				r.retrieve(o)
+			case "csubmit":
+				r.csubmit(o)
+			case "xsubmit":
+				r.xsubmit(o)
 			default:
 				c.Emit("bad-op")
 			}
@@ -587,9 +926,79 @@ func gen(r *hx.Rng, tier string, w io.Writer) {
 
 	// 5. malformed lines (both sides must answer bad-op)
 	p("reset kind=malformed")
-	bad := []string{"submit", "submit max=3 sizes=1", "submit max=3 sizes=1 ans=err:99", "submit ans=ok:x sizes=1", "retrieve", "retrieve ids=ok", "retrieve ids=wrap:8 get=ok", "retrieve ids=msg:zz get=ok", "fetch h=1", "submit max=3 sizes=1,x,2 ans=ok", "retrieve ids=ok get=msg:0 n=1", "submit ans=msg:41 max=5 sizes=2"}
+	bad := []string{"csubmit", "csubmit max=9 a=1 b=2 ans=ok", "csubmit max=9 a=1 b=2 ans=ok gate=x", "csubmit max=9 a=1 ans=ok gate=stub", "csubmit max=9 a=1 b=2 ans=wait gate=da",
+		"xsubmit", "xsubmit max=9 sizes=1", "xsubmit max=9 sizes=1 cancel=late", "xsubmit max=9 cancel=mid", "submit max=5 sizes=1 ans=wait",
+		"submit", "submit max=3 sizes=1", "submit max=3 sizes=1 ans=err:99", "submit ans=ok:x sizes=1", "retrieve", "retrieve ids=ok", "retrieve ids=wrap:8 get=ok", "retrieve ids=msg:zz get=ok", "fetch h=1", "submit max=3 sizes=1,x,2 ans=ok", "retrieve ids=ok get=msg:0 n=1", "submit ans=msg:41 max=5 sizes=2"}
 	for i := 0; i < nMal; i++ {
 		p("%s", bad[r.Intn(len(bad))])
+	}
+
+	// 6. two callers on ONE client (the node's header and data submission loops share the DA client): A is held
+	// between packing and encoding (gate=stub) or inside the DA layer (gate=da) while B runs from start to end, or
+	// nothing orders them (gate=free, under the race detector).  Each request must carry its own caller's blobs.
+	nConc, nCancel := 40, 24
+	if tier == "thorough" {
+		nConc, nCancel = 320, 200
+	}
+	p("reset kind=concurrent")
+	for _, g := range []string{"stub", "da", "free"} {
+		p("csubmit max=64 a=8,8,8 b=6,6 h=9 ans=ok gate=%s", g)
+		p("csubmit max=64 a=7 b=5,5,5,5 h=9 ans=ok gate=%s", g)
+		p("csubmit max=20 a=8,8,8 b=6,6,30 h=9 ans=ok gate=%s", g)
+		p("csubmit max=20 a=- b=6 h=9 ans=dummy gate=%s", g)
+		p("csubmit max=20 a=9,9 b=0,1 h=9 ans=ok:1 gate=%s", g)
+		p("csubmit max=20 a=5,5 b=6 h=9 ans=other gate=%s", g)
+	}
+	p("csubmit max=0 a=%d,1 b=%d h=4 ans=ok gate=stub", def/2, def/2+1)
+	for i := 0; i < nConc; i++ {
+		if i%40 == 39 {
+			p("reset kind=concurrent")
+		}
+		max := uint64(8 + r.Intn(56))
+		mk := func() []uint64 {
+			if r.Chance(12) {
+				return randSizes(r, max) // anything: oversize, empty, long
+			}
+			out := make([]uint64, 1+r.Intn(6)) // mostly several small blobs: both batches are sent
+			for j := range out {
+				out[j] = uint64(r.Intn(int(max)/4 + 1))
+			}
+			return out
+		}
+		ans := "ok"
+		switch x := r.Intn(12); {
+		case x < 7:
+		case x < 8:
+			ans = fmt.Sprintf("ok:%d", r.Intn(4))
+		case x < 10:
+			ans = "dummy"
+		default:
+			ans = randErrAns(r)
+		}
+		p("csubmit max=%d a=%s b=%s h=%d ans=%s gate=%s", max, joinU(mk()), joinU(mk()), 1+r.Intn(1000), ans, []string{"stub", "stub", "da", "free"}[r.Intn(4)])
+	}
+
+	// 7. the caller gives up while the DA layer is working on the batch (and the same call left alone): what the
+	// caller is told, whether the DA layer learns of it, what the DA layer holds afterwards
+	p("reset kind=cancel-mid-call")
+	for _, how := range []string{"mid", "none"} {
+		p("xsubmit max=64 sizes=3,4 h=9 cancel=%s", how)
+		p("xsubmit max=5 sizes=3,4 h=9 cancel=%s", how)
+		p("xsubmit max=5 sizes=3,9 h=9 cancel=%s", how)
+		p("xsubmit max=5 sizes=0 h=9 cancel=%s", how)
+		p("xsubmit max=5 sizes=- h=9 cancel=%s", how)
+	}
+	p("xsubmit max=0 sizes=%d h=4 cancel=mid", def/4)
+	for i := 0; i < nCancel; i++ {
+		if i%40 == 39 {
+			p("reset kind=cancel-mid-call")
+		}
+		max := uint64(1 + r.Intn(48))
+		how := "mid"
+		if r.Chance(30) {
+			how = "none"
+		}
+		p("xsubmit max=%d sizes=%s h=%d cancel=%s", max, joinU(randSizes(r, max)), 1+r.Intn(1000), how)
 	}
 }
 
